@@ -346,7 +346,8 @@ func (r *rewriter) rewriteSelect(c *astutil.Cursor, n *ast.SelectStmt) {
 		cc := cl.(*ast.CommClause)
 		if cc.Comm == nil {
 			hasDefault = true
-			clauses = append(clauses, &ast.CaseClause{List: []ast.Expr{&ast.BasicLit{Kind: token.INT, Value: "-1"}}, Body: cc.Body})
+			// Select returns -1 for the default clause, which matches no numbered case
+			clauses = append(clauses, &ast.CaseClause{List: nil, Body: cc.Body})
 			continue
 		}
 		ch := r.tmp("c")
@@ -391,6 +392,10 @@ func (r *rewriter) rewriteSelect(c *astutil.Cursor, n *ast.SelectStmt) {
 	hd := "false"
 	if hasDefault {
 		hd = "true"
+	}
+	if !hasDefault {
+		// keeps the switch a terminating statement exactly when the select was one
+		clauses = append(clauses, &ast.CaseClause{List: nil, Body: []ast.Stmt{&ast.ExprStmt{X: &ast.CallExpr{Fun: ast.NewIdent("panic"), Args: []ast.Expr{&ast.BasicLit{Kind: token.STRING, Value: strconv.Quote("zzvs: Select returned an impossible case")}}}}}})
 	}
 	args := append([]ast.Expr{r.site(n), ast.NewIdent(hd)}, cases...)
 	sw := &ast.SwitchStmt{Tag: call("Select", args...), Body: &ast.BlockStmt{List: clauses}}
